@@ -25,6 +25,11 @@ res['suite_with_change'] = o.strip().replace('\n', ' | ')
 os.rename(demo + '.off', demo)
 rc, o = run('cargo test --offline --test zz_demo 2>&1 | tail -8')
 res['demo_with_change'] = 'FAILS(as expected)' if ('FAILED' in o or 'panicked' in o) else 'passes?!'
+if res['demo_with_change'] == 'passes?!':
+    # a defect that only shows in the optimised profile
+    rc, o = run('cargo test --offline --release --test zz_demo 2>&1 | tail -8')
+    if 'FAILED' in o or 'panicked' in o:
+        res['demo_with_change'] = 'FAILS(as expected) in --release only'
 res['demo_tail'] = o[-300:]
 run('git checkout -- src'); os.remove(demo)
 ok = (res['demo_on_clean'] == 'pass' and res['apply_rc'] == 0 and 'FAILED' not in res['suite_with_change']
